@@ -1199,7 +1199,7 @@ class Standard(Output):
 
             std = verif.util.nanstd(y)
             minDiff = std / 50
-            Ieven = np.where(np.abs(y[:, 0] - y[:, 1]) < minDiff)[0]
+            Ieven = np.where((np.abs(y[:, 0] - y[:, 1]) < minDiff) & (invalid == 0))[0]
             R[Ieven, :] = -1
             yy = np.zeros([F + 1, F])  # Rank, F
             for j in range(F):
